@@ -62,6 +62,31 @@ CLAIMED = {
             "Trusted: the fresh object runs the same real code (history independence needs no independent DSM arithmetic). Steps that raise or "
             "are interrupted are not judged; the next successful compute is. Crash points are Python line boundaries in flodym's own files.",
             "5.3"),
+    "C11": ("iochan", "exploration",
+            "deterministic simulation of the import channel, benign configuration: seeded table trips through real to_df / CSV / Excel / readers with row and column permutations, frame-model oracle",
+            "One run simulates one table travelling producer -> header style -> layout -> medium -> consumer (real to_df or an independent "
+            "serialiser; names / letters / mixed / items-only headers; long or wide over any dimension; dims in index or columns; omitted "
+            "single-item dims; DataFrame, CSV text on a scratch disk read by pd.read_csv, CSVParameterReader, ExcelParameterReader; from_df or "
+            "set_values_from_df) with only benign perturbations (row / column permutations). The import must return exactly the exported array; "
+            "to_df must list every entry once (sparse: exactly the non-zero ones); whenever an import returns, every entry comes from the unique "
+            "row carrying its labels. Includes worlds with one dimension of > 32767 items. Partial fit: the only genuinely simulated parts are the "
+            "file media and the permutation 'faults'; the rest is the fault-free baseline of the C12 machine.",
+            "Trusted: the frame model and expectation() in engines/iochan.py. Layouts are generated only inside what the property promises "
+            "(values cannot be mistaken for items; pairwise different item sets; items-only headers with dimension columns in front; untyped int "
+            "wide headers not through text media).",
+            "5.4"),
+    "C12": ("iochan", "fault_enumeration",
+            "deterministic simulation with fault injection on the import channel: stored-record faults, column faults, CSV truncation, OSError on open, settrace interrupts; per-world enumeration of every single fault",
+            "Same machine as C11 with harmful faults between producer and consumer: drop / duplicate (same or other value) / relabel to unknown or "
+            "to another known item / blank value / blank label rows; drop a dimension column, add an unmatched value column, rename a wide item "
+            "column; truncate the CSV file at a line boundary or mid-line; OSError on open (through pandas.io.common.open); interrupts inside "
+            "set_values_from_df; all four flag combinations. The expected outcome (must raise / lenient result / either-but-never-wrong-data) is "
+            "derived from the harness's frame model after faults; a refused import must leave the sentinel-filled target bitwise unchanged; after "
+            "the fault the intact table must import into the same target. 'enum' tasks enumerate every single record/column fault of a sampled "
+            "world; everything else is sampled.",
+            "Trusted: frame model + expectation(). Cases the property leaves open (unknown items in an items-inferred column, blank label cells, "
+            "duplicated unknown rows, an emptied table, the torn line of a mid-line truncation) only demand 'raise or lenient result, never wrong data'.",
+            "5.4"),
 }
 
 PLANNED = {}
